@@ -46,7 +46,7 @@ def run(v):
         shutil.rmtree(tmp,ignore_errors=True)
 vs=variants()
 res={}
-with concurrent.futures.ThreadPoolExecutor(max_workers=4) as ex:
+with concurrent.futures.ThreadPoolExecutor(max_workers=6) as ex:
     for name,r in ex.map(run,vs):
         res[name]=r
         print(name, 'applies' if r['applies'] else 'DOES NOT APPLY', r['detected_by'], flush=True)
